@@ -132,6 +132,7 @@ type case = {
   mutable sched : int list option;     (* None: to be generated *)
   seed : int;
   gen : string;                        (* schedule strategy when sched is None: random | rr | pct *)
+  mutable c0 : n option;         (* a clone: the position counter it starts with (C19) *)
 }
 
 let kv s = match String.index_opt s '=' with
@@ -157,13 +158,14 @@ let read_cases ic : case list =
        match words line with
        | [] -> ()
        | "case" :: id :: _ ->
-           cur := Some { id; env = Obj.magic 0; nthreads = 0; progs = [||]; final = None; sched = None; seed = 0; gen = "random" }
+           cur := Some { id; env = Obj.magic 0; nthreads = 0; progs = [||]; final = None; sched = None; seed = 0; gen = "random"; c0 = None }
        | "env" :: toks -> (match !cur with Some c -> cur := Some { c with env = parse_env toks } | None -> ())
        | ["threads"; n] -> (match !cur with Some c -> let n = int_of_string n in cur := Some { c with nthreads = n; progs = Array.make n [] } | None -> ())
        | "prog" :: t :: ops -> (match !cur with Some c -> c.progs.(int_of_string t) <- List.map op_parse ops | None -> ())
        | ["final"; f] -> (match !cur with Some c -> cur := Some { c with final = final_parse f } | None -> ())
        | ["seed"; s] -> (match !cur with Some c -> cur := Some { c with seed = int_of_string s } | None -> ())
        | ["gen"; g] -> (match !cur with Some c -> cur := Some { c with gen = g } | None -> ())
+       | ["c0"; k] -> (match !cur with Some c -> c.c0 <- Some (n_parse k) | None -> ())
        | ["sched"; s] ->
            (match !cur with
             | Some c -> c.sched <- (if s = "-" then None else if s = "." then Some [] else Some (List.map int_of_string (split ',' s)))
@@ -173,6 +175,12 @@ let read_cases ic : case list =
      done
    with End_of_file -> ());
   List.rev !cases
+
+let init_case (c : case) : cfg =
+  let i = init (fun t -> let k = int_of_nat t in if k < c.nthreads then c.progs.(k) else []) in
+  match c.c0 with
+  | None -> i
+  | Some k -> { i with c_sh = { i.c_sh with s_c = k } }
 
 let progs_fun (c : case) : tid -> op list =
   let a = c.progs in
@@ -216,7 +224,7 @@ let is_waiting (cfg : cfg) t =
 (* generate a complete schedule by running the model *)
 let gen_sched (c : case) : int list =
   sm_state := Int64.of_int (c.seed * 7919 + 13);
-  let cfg = ref (init (progs_fun c)) in
+  let cfg = ref (init_case c) in
   let sched = ref [] in
   let steps = ref 0 in
   let last = ref (-1) in
@@ -257,7 +265,7 @@ let run_case oc (c : case) =
   let sched = match c.sched with Some s -> s | None -> let s = gen_sched c in c.sched <- Some s; s in
   Printf.fprintf oc "case %s\n" c.id;
   Printf.fprintf oc "sched %s\n" (if sched = [] then "." else String.concat "," (List.map string_of_int sched));
-  let cfg = ref (init (progs_fun c)) in
+  let cfg = ref (init_case c) in
   List.iter (fun t ->
       let before = !cfg in
       cfg := step c.env before tids.(t);
@@ -320,7 +328,7 @@ let dfs_case oc (c : case) (limit : int) =
       end
     end
   in
-  go (init (progs_fun c)) [] [] [];
+  go (init_case c) [] [] [];
   !count
 
 (* ---------- reading traces back ---------- *)
